@@ -49,7 +49,30 @@ H_BODIES = [["abort"], ["send Tock()"], ["match E2()"], ["$y = None.z"]]
 STARTERS = ["activate g", "start g", "await g", "when g\n    send M3()\n  else\n    send M4()", "activate g\n  activate g2"]
 
 
+# activated flows whose *restarted* instance fails before its first wait (a global changed meanwhile)
+SECOND_INSTANCE_BODIES = [
+    ["global $d", "start ActAAction()", "$x = 10 / $d", "match E1()", "$d = 0"],
+    ["global $d", "$x = 10 / $d", "match E1()", "$d = 0"],
+    ["global $d", "start ActAAction()", "if $d == 0", "  abort", "match E1()", "$d = 0"],
+    ["global $d", "send Tick()", "$x = 10 / $d", "match E1()", "$d = 0"],
+    ["global $d", "await h2", "$x = 10 / $d", "match E1()", "$d = 0"],
+]
+
+
 def t_programs():
+    for gb in SECOND_INSTANCE_BODIES:
+        g = "flow g\n" + ind(gb)
+        h2 = "flow h2\n" + ind(["send Tock()"])
+        for setter in ("main", "other"):
+            if setter == "main":
+                main = "flow main\n  global $d\n  $d = 1\n  activate g\n  match Never()\n"
+                src = g + "\n" + h2 + "\n" + main
+            else:
+                gg = g.replace('  $d = 0\n', '')
+                other = "flow other\n  global $d\n  match E2()\n  $d = 0\n"
+                main = "flow main\n  global $d\n  $d = 1\n  activate g\n  activate other\n  match Never()\n"
+                src = gg + "\n" + h2 + "\n" + other + "\n" + main
+            yield src, {"g": gb, "h": None, "starter": "activate g (second instance fails: " + setter + ")"}
     for gb, hb, starter in itertools.product(IMMEDIATE_BODIES, H_BODIES, STARTERS):
         uses_h = any(" h" in l for l in gb)
         if not uses_h and hb != H_BODIES[0]:
@@ -105,8 +128,8 @@ def explore_t(task):
         if v["signature"] == "step-budget":
             kind = "activated" if "activate" in info["starter"] else "started"
             v["signature"] = f"non-termination:{kind}-flow-body={'|'.join(info['g'])[:40]}"
-            uses_h = any(l.strip().split()[0] in ("await", "when", "start") and l.strip().endswith(" h") for l in info["g"])
-            if kind == "activated" and uses_h and info["h"] in (["send Tock()"],):
+            uses_h = any(l.strip().split()[0] in ("await", "when", "start") and l.strip().endswith((" h", " h2")) for l in info["g"])
+            if kind == "activated" and uses_h and (info["h"] in (["send Tock()"],) or any(l.strip().endswith(" h2") for l in info["g"])):
                 # activated flow that only waits for a child flow which itself finishes without waiting
                 v["signature"] = "non-termination:activated-flow-waiting-only-for-immediately-finishing-child"
             v["what"] = (f"run_to_completion exceeded the step budget {budget} (= 50 x (elements {n_elements} + 10)): "
@@ -299,6 +322,47 @@ def fault_task(task):
     return res
 
 
+ACTIVE_BODIES = [["abort"], ["$x = 1/0"], ["start ActAAction()", "abort"], ["start ActAAction()", "$x = 1/0"], ["send Tick()", "$x = 1/0"],
+                 ["send Tick()"], ["match E1()", "abort"], ['priority "x"'], ["start ActAAction()", "match $nope.Finished()"]]
+
+
+def active_task(body):
+    """module-level `@active` flows are started by process_events itself (nobody awaits their start)"""
+    src = "@active\nflow g\n" + ind(body) + "\n" + '@loop("by")\nflow bystander\n  match E1()\n  send By1()\n  match E2()\n  send By2()\n  match Never()\n' \
+          + "\nflow main\n  start bystander\n  match Never()\n"
+    res = {"programs": 1, "histories": 0, "viol": []}
+    info = {"engine": "C10-F", "source": src, "history": []}
+    try:
+        rt = _runtime(src)
+    except Exception as e:
+        res["viol"].append((f"program-rejected:active:{'|'.join(body)[:30]}", repr(e), info))
+        return res
+    n_elements = sum(len(c.elements) for c in rt.flow_configs.values())
+    budget = 50 * (n_elements + 10)
+    for hist in ([], ["E1"], ["E1", "E2"], ["X", "E1", "E2"]):
+        res["histories"] += 1
+        loop = asyncio.new_event_loop()
+        info = {"engine": "C10-F", "source": src, "history": hist}
+        try:
+            signal.signal(signal.SIGALRM, _alarm)
+            signal.alarm(30)
+            outs, _ = run_history(rt, [{"type": t} for t in hist], loop, budget)
+            want = [o for o in (["By1"] if "E1" in hist else []) + (["By2"] if hist[-2:] == ["E1", "E2"] else [])]
+            got = [o for step in outs for o in step if o.startswith("By")]
+            if got != want:
+                res["viol"].append((f"bystander-disturbed:active-flow:{'|'.join(body)[:30]}", f"@active flow g = {body}; history {hist}: bystander emitted {got}, expected {want}", info))
+        except (seams.StepBudgetExceeded, WallClockExceeded) as e:
+            res["viol"].append((f"non-termination:active-flow-body={'|'.join(body)[:40]}",
+                                f"process_events exceeded the step budget {budget} for an `@active` flow g = {body} (history {hist}): {type(e).__name__}", info))
+            break
+        except Exception as e:
+            res["viol"].append((f"exception-escapes-process_events:active-flow:{'|'.join(body)[:30]}", f"{type(e).__name__}: {e}", info))
+        finally:
+            signal.alarm(0)
+            loop.close()
+    return res
+
+
 def run(rep, tier):
     from vf import par
     from vf.e1run import run_e1
@@ -320,6 +384,13 @@ def run(rep, tier):
             agg[k] += r[k]
         for sig, what, info in r["viol"]:
             rep.violation(sig, what, info)
+    act = {"programs": 0, "histories": 0}
+    for r in par.pmap(active_task, ACTIVE_BODIES):
+        act["programs"] += r["programs"]; act["histories"] += r["histories"]
+        for sig, what, info in r["viol"]:
+            rep.violation(sig, what, info)
+    rep.set("active_flow_programs", act["programs"])
+    rep.set("active_flow_histories", act["histories"])
     rep.set("fault_programs", agg["programs"])
     rep.set("fault_histories", agg["histories"])
     rep.set("fault_events_processed", agg["events"])
